@@ -10,13 +10,13 @@ Definition up_tail := NGrp (Alt (Seq (Lit s_data) Eol) (Alt (Seq (Lit s_starteda
 Lemma D_uuid pre u tail : pre <> [] -> nonl pre = true -> u <> [] -> forallb (cs_in cs_noslash) u = true ->
   D up_tail tail [] [] ->
   D ast_get_upload_uuid (pre ++ sls s_uploads ++ u ++ [SL] ++ tail) [] [u].
-Proof. intros. unf_ast_goal. dI; eauto; try reflexivity. Qed.
+Proof. intros. unf_ast_goal. dI'. Qed.
 
 Lemma D_hs_tail a : a <> [] -> forallb (cs_in cs_alnum) a = true -> D hs_tail ((s_hashstates ++ [SL]) ++ a ++ [] ++ []) [] [].
-Proof. intros. unfold hs_tail, seqs, alnums. dI; eauto; try reflexivity. right. auto. Qed.
+Proof. intros. unf_ast_goal. dI'. cbn [D]. right. split; reflexivity. reflexivity. Qed.
 Lemma D_hs_tail_off a o : a <> [] -> forallb (cs_in cs_alnum) a = true -> o <> [] -> forallb (cs_in cs_digit) o = true ->
   D hs_tail ((s_hashstates ++ [SL]) ++ a ++ ([SL] ++ o) ++ []) [] [].
-Proof. intros. unfold hs_tail, seqs, alnums, digits. dI; eauto; try reflexivity. left. dI; eauto. reflexivity. Qed.
+Proof. intros. unf_ast_goal. dI'. cbn [D]. left. dI'. reflexivity. Qed.
 
 Lemma build_hashstates r u a :
   build (KUploadHashStates r u a) = repo_dir r ++ sls s_uploads ++ u ++ [SL] ++ ((s_hashstates ++ [SL]) ++ a ++ [] ++ []).
@@ -67,7 +67,7 @@ Proof.
   - destruct (uuid_ok_facts u Hu) as (? & ? & ? & ?). destruct (valid_algo_cls a Ha). destruct (valid_offset_cls o Ho).
     replace (build (KUploadHashState r u a o)) with (repo_dir r ++ sls s_uploads ++ u ++ sls s_hashstates ++ a ++ [SL] ++ o ++ []).
     2:{ cbn [build sls app]. rewrite <- !app_assoc, ?app_nil_r. reflexivity. }
-    unf_ast_goal. dI; eauto using repo_dir_nonnil; try reflexivity. apply repo_dir_nonl; auto.
+    unf_ast_goal. dI'; auto using repo_dir_nonnil. apply repo_dir_nonl; auto.
   - uniq.
 Qed.
 
@@ -76,7 +76,7 @@ Definition mu_alt := Grp (Alt (Seq (Lit s_data) Eol) (Alt (Seq (Lit s_startedat)
 Lemma D_mu pre u tail rest c : pre <> [] -> nonl pre = true -> u <> [] -> forallb (cs_in cs_noslash) u = true ->
   D mu_alt tail rest c ->
   D ast_match_uploads (pre ++ sls s_uploads ++ u ++ [SL] ++ tail) rest c.
-Proof. intros. unf_ast_goal. dI; eauto; try reflexivity. Qed.
+Proof. intros. unf_ast_goal. dI'. Qed.
 
 Lemma mu_data r u : repo_ok r = true -> uuid_ok u = true -> exec ast_match_uploads (build (KUploadData r u)) = Some [s_data].
 Proof.
